@@ -113,6 +113,17 @@ func genC01(r *sim.Rng) *c01Case {
 			// commands ending in a run of one byte (the fuzzy echo matcher walks byte by byte)
 			cmd = r.Pick([]string{"show vlan all", "show firewall", "show interface 0/0/11", "show ip route vrf all", "sh ver | i uptime  ", "display vlan summary ||", "ping 10.0.0.1 count 100", "xx"})
 		}
+		if r.Chance(1, 8) {
+			// a command LONGER than the prompt search depth (the window for the echo is sized by the
+			// input, not by the depth): long filter expressions, pasted configuration lines
+			d := c.Depth
+			if d == 0 {
+				d = 1000
+			}
+			if d <= 1000 && (d <= 200 || r.Chance(1, 3)) {
+				cmd = "show running-config | include " + strings.Repeat("abcdefghij", (d+20+r.Intn(60))/10) + "!"
+			}
+		}
 		c.Cmds = append(c.Cmds, cmd)
 		var atoms []string
 		nl := r.Intn(7)
